@@ -227,6 +227,13 @@ func (in *Interp) boundsCheck(idx *Term, n int) (int, *Term) {
 }
 
 func (in *Interp) indexVal(x Value, idx *Term) Value {
+	if s, ok := x.(Str); ok {
+		i, sym := in.boundsCheck(idx, s.Len())
+		if sym != nil {
+			i = int(in.concretize(sym, "string value index"))
+		}
+		return in.strBytes(s)[i]
+	}
 	a := x.(*ArrayV)
 	i, sym := in.boundsCheck(idx, len(a.e))
 	if sym != nil {
